@@ -68,6 +68,16 @@ def _adjacency_occurrences(patt, adj_idx, adj_val, perm):
     return out
 
 
+_CONTAINERS = (
+    ("a list", list),
+    ("a set", set),
+    ("a generator", lambda xs: (x for x in xs)),
+    ("an iterator", lambda xs: iter(list(xs))),
+    ("a map object", lambda xs: map(int, list(xs))),
+    ("a reversed object", lambda xs: reversed(list(xs))),
+)
+
+
 @check("C03.bivincular")
 def bivincular(item):
     kind, patt, adj_idx, adj_val, perms = item
@@ -84,6 +94,18 @@ def bivincular(item):
     )
     if frozenset(obj.shading) != want_sh:
         return bad(sorted(want_sh), sorted(obj.shading), f"shading of {kind} pattern vs full columns/rows")
+    # the adjacency requirements are declared Iterable[int]: every container kind, one-shot ones included,
+    # denotes the same pattern (added after seeded change C03_d - an eager validation pass that exhausts
+    # iterators - was missed)
+    for cname, conv in _CONTAINERS:
+        if kind == "bi":
+            other = Biv(patt, conv(adj_idx), conv(adj_val))
+        elif kind == "vin":
+            other = Vin(patt, conv(adj_idx))
+        else:
+            other = Cov(patt, conv(adj_val))
+        if frozenset(other.shading) != want_sh:
+            return bad(sorted(want_sh), sorted(other.shading), f"{kind} pattern built from {cname} adjacency requirements vs full columns/rows")
     as_mesh = MeshPatt(patt, want_sh)
     ri, rv = obj.get_adjacent_requirements()
     if ri != sorted(ri) or rv != sorted(rv) or not set(adj_idx) <= set(ri) or not set(adj_val) <= set(rv):
